@@ -448,11 +448,11 @@ Section Copy.
     destruct (N.eqb_spec k k') as [->|]; intros H; [inversion H; auto|auto].
   Qed.
 
-  Lemma copy_regular_spec s s' r cs d x src ino : Tgt (s_fs s) cs d x -> absent (s_fs s) d x -> lok s ->
-    copy_regular c src (tpath cs x) ino s = (s', r) ->
+  Lemma copy_regular_spec s s' r cs d x src ino multi : Tgt (s_fs s) cs d x -> absent (s_fs s) d x -> lok s ->
+    copy_regular c src (tpath cs x) ino multi s = (s', r) ->
     stays_ok d s s' r /\ s_parents s' = s_parents s /\ (r = inl tt -> made s' d x).
   Proof.
-    intros T Hab L H. unfold copy_regular in H. rewrite bind_run in H. unfold get_fs at 1 in H.
+    intros T Hab L H. unfold copy_regular in H.
     assert (Hplain : forall s0 s1 r1, s_fs s0 = s_fs s -> (lok s -> lok s0) -> s_links s0 = s_links s -> s_parents s0 = s_parents s ->
               copy_file c src (tpath cs x) s0 = (s1, r1) -> stays_ok d s s1 r1 /\ s_parents s1 = s_parents s /\ (r1 = inl tt -> made s1 d x)).
     { intros s0 s1 r1 E0 L0 EL EP H1.
@@ -461,7 +461,7 @@ Section Copy.
       destruct (copy_file_spec s0 s1 r1 cs d x src T0 Hab0 H1) as ((C1 & A1 & L1 & K1 & Q1) & EL1 & _ & P1).
       split; [split; auto; split; [rewrite <- E0; auto|split; [auto|rewrite <- E0; auto]]|]. split; [congruence|].
       intros Hr. destruct (P1 Hr) as (i & Hn & Hbi & Hf). exists i. split; auto. split; auto. apply isfile_not_link; auto. }
-    destruct (N.ltb 1 (nlink (s_fs s) ino)); [|eapply Hplain; eauto].
+    destruct multi; [|eapply Hplain; eauto].
     rewrite bind_run in H. unfold get_links at 1 in H.
     destruct (assoc_N ino (s_links s)) as [first|] eqn:Ea.
     - (* os.Link(first, target) *)
